@@ -383,6 +383,12 @@ class MessageAccumulator:
             batch.failure(exception)
         self._exception = exception
 
+    def fail_partitions(self, tps, exception):
+        """Fail the batches queued for ``tps`` instead of delivering them."""
+        for tp in tps:
+            for batch in self._batches.pop(tp, ()):
+                batch.failure(exception)
+
     async def close(self):
         self._closed = True
         await self.flush()
